@@ -18,6 +18,7 @@ RULE = ("fault sequences on valid calls: NaN/+-inf/huge at arbitrary "
         "(family, fault kinds+placement, constraint kind, outcome)")
 RULE += ("  Also: user functions returning int / float32 / list values, unhashable callable callbacks, callbacks returning truthy values; success is also judged against the TRUE violation at res.x (undefined -> never successful).")
 RULE += (" Initial radii of 1e60..1e150.")
+RULE += (" Callback forms 'falsy' (callable, false in a boolean context) and (xk, intermediate_result=None).")
 ASSUMPTIONS = [
     "debug=False (debug assertions are the documented reporting channel)",
     "finite time = logical budget: loop iterations inside cobyqa code "
